@@ -501,6 +501,7 @@ impl AdminOp {
 }
 
 pub struct Built {
+	#[allow(dead_code)]
 	pub scr: Scratch,
 	pub dir: std::path::PathBuf,
 	pub content: Content,
@@ -508,6 +509,8 @@ pub struct Built {
 	pub logs_pending: bool,
 	/// columns written by the commits that are only in the logs
 	pub log_cols: BTreeSet<usize>,
+	/// Some(true): the image without its log files was seen to lack the last commits
+	pub selfcheck: Option<bool>,
 }
 
 pub fn base_options(dir: &Path, cols: &[ColumnOptions], thresholds: &std::collections::HashMap<u8, u32>) -> Options {
@@ -530,6 +533,7 @@ pub fn build_db(rng: &mut Rng, cols: &[ColumnOptions], logs_pending: bool, big: 
 	let mut content = Content::new(rng, cols, 24, big);
 	let all: Vec<usize> = (0..cols.len()).collect();
 	let mut log_cols = BTreeSet::new();
+	let mut selfcheck = None;
 	if !logs_pending {
 		let mut o = base_options(&dir, cols, &thresholds);
 		let stepping = rng.chance(1, 3);
@@ -583,8 +587,31 @@ pub fn build_db(rng: &mut Rng, cols: &[ColumnOptions], logs_pending: bool, big: 
 		dbutil::make_drop_legal(&db).map_err(|e| format!("make_drop_legal: {}", e))?;
 		db.close();
 		let _ = std::fs::remove_dir_all(&live);
+		// harness self-check (one image in five): without its log files the image must lack
+		// the last commits, i.e. they really are only in the logs
+		if rng.chance(1, 5) {
+			let nolog = scr.sub("nolog");
+			copy_dir(&dir, &nolog).map_err(|e| format!("copy: {}", e))?;
+			for (name, _) in hashes(&nolog) {
+				if name.starts_with("log") {
+					let _ = std::fs::remove_file(nolog.join(&name));
+				}
+			}
+			let o = base_options(&nolog, cols, &thresholds);
+			let differs = match catch(|| -> bool {
+				match Db::open(&o) {
+					Ok(db) => log_cols.iter().any(|c| verify_col(&db, *c as u8, &cols[*c], &content.data[*c], &content.removed[*c]).is_err()),
+					Err(_) => true,
+				}
+			}) {
+				Ok(d) => d,
+				Err(_) => true,
+			};
+			selfcheck = Some(differs);
+			let _ = std::fs::remove_dir_all(&nolog);
+		}
 	}
-	Ok(Built { scr, dir, content, thresholds, logs_pending, log_cols })
+	Ok(Built { scr, dir, content, thresholds, logs_pending, log_cols, selfcheck })
 }
 
 fn keys_of(content: &Content, c: usize) -> Vec<Vec<u8>> {
@@ -728,6 +755,9 @@ fn admin_check(b: &mut Built, op: &AdminOp, rng: &mut Rng, rep: &mut Report, ver
 		Ok(())
 	};
 	check_untouched(&db, &mut evals)?;
+	if b.logs_pending && b.log_cols.iter().any(|c| Some(*c) != affected && *c < expected.len()) {
+		rep.count("admin_untouched_columns_with_log_only_commits", 1);
+	}
 	let mut new_data = None;
 	if let Some(a) = affected {
 		let old = if a < n { keys_of(&b.content, a) } else { vec![] };
@@ -825,9 +855,6 @@ pub fn admin_case(ctx: &Ctx, rep: &mut Report, case_seed: u64) {
 	let txs = rng.range(3, ctx.tier.pick(10, 30)) as usize;
 	let desc0 = format!("C17 c seed={} cols=[{}] logs={} chain={}", case_seed, show_all(&cols), logs, chain);
 	ctx.mark(&desc0);
-	if verbose {
-		eprintln!("[case] {}", desc0);
-	}
 	let replay = J::obj().set("part", J::s("c")).set("case_seed", J::i(case_seed)).set("desc", J::s(desc0.clone()));
 	rep.cases += 1;
 	let mut built = match catch(|| build_db(&mut rng, &cols, logs, big, txs)) {
@@ -842,7 +869,12 @@ pub fn admin_case(ctx: &Ctx, rep: &mut Report, case_seed: u64) {
 		},
 	};
 	if verbose {
-		eprintln!("  built: {} log_cols={:?}", built.content.describe(), built.log_cols);
+		eprintln!("  built: {} log_cols={:?} selfcheck={:?}", built.content.describe(), built.log_cols, built.selfcheck);
+	}
+	match built.selfcheck {
+		Some(true) => rep.count("admin_image_selfcheck_confirmed", 1),
+		Some(false) => rep.count("admin_image_selfcheck_no_difference", 1),
+		None => {},
 	}
 	for step in 0..chain {
 		let cur = built.content.opts.clone();
@@ -971,6 +1003,8 @@ pub fn spec() -> pv::Spec {
 	.require("admin_reset_column_new", 10)
 	.require("admin_clear_column", 10)
 	.require("admin_logs_pending", 40)
+	.require("admin_untouched_columns_with_log_only_commits", 20)
+	.require("admin_image_selfcheck_confirmed", 5)
 	.require("admin_clean", 40)
 	.assume("requested options that fail ColumnOptions::is_valid are excluded from the open-with-mismatch workload (Db::open asserts validity by contract); the metadata round trip covers them")
 	.assume("reference counted btree columns and tree dereferences are not part of the administration workloads (known finding F4 / unobservable counts)")
